@@ -6,7 +6,6 @@ for a paper.
 
 """
 
-import contextlib
 import itertools
 import warnings
 from collections.abc import Callable
@@ -21,6 +20,7 @@ from matplotlib.axes import Axes
 from matplotlib.cm import ScalarMappable
 from matplotlib.collections import LineCollection, PatchCollection, PolyCollection
 from matplotlib.colors import LinearSegmentedColormap, Normalize, to_rgba
+from matplotlib.markers import MarkerStyle
 from matplotlib.patches import Polygon
 
 import mesa
@@ -90,9 +90,9 @@ def collect_agent_data(
         arguments["marker"].append(portray.pop("marker", marker))
         arguments["zorder"].append(portray.pop("zorder", zorder))
 
+        # None: this agent's portrayal does not specify the field
         for entry in ["alpha", "edgecolors", "linewidths"]:
-            with contextlib.suppress(KeyError):
-                arguments[entry].append(portray.pop(entry))
+            arguments[entry].append(portray.pop(entry, None))
 
         if len(portray) > 0:
             ignored_fields = list(portray.keys())
@@ -101,6 +101,12 @@ def collect_agent_data(
                 f"the following fields are not used in agent portrayal and thus ignored: {msg}.",
                 stacklevel=2,
             )
+
+    # a field that no agent specifies stays empty and is left to ax.scatter; if only some
+    # agents specify it, _scatter gives the other agents the default of ax.scatter
+    for entry in ["alpha", "edgecolors", "linewidths"]:
+        if all(value is None for value in arguments[entry]):
+            arguments[entry] = []
 
     data = {
         k: (np.asarray(v, dtype=object) if k == "marker" else np.asarray(v))
@@ -669,6 +675,50 @@ def _scatter(ax: Axes, arguments, **kwargs):
                 y[logical],
                 marker=mark,
                 zorder=z_order,
-                **{k: v[logical] for k, v in arguments.items()},
+                **_fill_unspecified(
+                    {k: v[logical] for k, v in arguments.items()}, mark
+                ),
                 **kwargs,
             )
+
+
+def _fill_unspecified(arguments, marker):
+    """Handle alpha, edgecolors, and linewidths that only some agents specify (the others have None).
+
+    A field that no agent in this call of ax.scatter specifies is left to ax.scatter. Otherwise, the
+    agents that do not specify it get what ax.scatter uses by default.
+
+    Args:
+        arguments: the agent specific arguments for one call of ax.scatter
+        marker: the marker used in this call
+
+    """
+
+    def own_alpha(color):
+        try:
+            return to_rgba(color)[3]
+        except ValueError:  # not a color but a number to be color mapped
+            return 1.0
+
+    if MarkerStyle(marker).is_filled():
+        linewidth = plt.rcParams["patch.linewidth"]
+    else:
+        linewidth = plt.rcParams["lines.linewidth"]
+
+    defaults = {
+        "alpha": own_alpha,
+        "edgecolors": to_rgba,  # "face"
+        "linewidths": lambda color: linewidth,
+    }
+    for entry, default in defaults.items():
+        values = arguments.get(entry, ())
+        if not any(value is None for value in values):
+            continue
+        if all(value is None for value in values):
+            del arguments[entry]
+        else:
+            arguments[entry] = [
+                default(color) if value is None else value
+                for value, color in zip(values, arguments["c"])
+            ]
+    return arguments
